@@ -1,11 +1,13 @@
 """C10 — validate accepts exactly conforming data and agrees with the writers."""
 import copy
 import io
+import random
 
 from ..harness import Shard, rng_for, h64, schema_shape, datum_shape, printable, guard, exc_name
 from ..gen.cases import gen_case
 from ..gen.mutate import mutate
 from ..ref import schema as RS, binary as RB, conform as RC, container as RK
+from .. import known
 
 PID = "C10"
 LEVEL = "exploration"
@@ -261,9 +263,14 @@ def run_shard(spec):
     while i < spec["n"] and not sh.out_of_time():
         i += 1
         logical = rng.random() < 0.5
-        case = gen_case(rng, dict(bytes_defaults=0.0, logical=logical), dict(hints=0.2, size_budget=60, big=0.005, omit_nullable=0.15))
+        case = gen_case(rng, dict(bytes_defaults=0.15, logical=logical), dict(hints=0.2, size_budget=60, big=0.005, omit_nullable=0.15))
         sh.feat(case["features"])
-        sh.run_case(one_case, sh, fa, V, rng, case)
+        seed = rng.getrandbits(48)
+        applies = RC.has_bytes_default(case["node"])
+        neutral = known.neutralise_bytes_defaults(case) if applies else case
+        sh.run_case(sh.with_finding, "bytes-default-used-verbatim", applies,
+                    lambda s_: one_case(s_, fa, V, random.Random(seed), case),
+                    lambda s_: one_case(s_, fa, V, random.Random(seed), neutral))
         if i % 400 == 1:
             sh.sample({"schema": case["schema"], "datum": printable(case["datum"], 200)})
     return sh.result()
